@@ -41,13 +41,13 @@ theorem force_sv (hac : Acyclic c.frags rank) (hfr : FragsOK c pv) (cl : Closure
     | ok v =>
       rw [hcr] at hr
       simp only at hr
-      obtain ⟨fname, st, rS, stS, hS, hkf, hres⟩ := hr
+      obtain ⟨st, rS, stS, hS, hkf, hres⟩ := hr
       simp only
       have hne : rS ≠ .fuelOut := by
         rcases hres with h | h
         · rw [h]; simp
         · rw [h.1]; simp
-      have hc := (genP (F := F) hac hfr F (Nat.le_refl _)).complete true cl.t cl.rt fname cl.fid cl.fp cl.path v st
+      have hc := (genP (F := F) hac hfr F (Nat.le_refl _)).complete true cl.t cl.rt cl.fid cl.fp cl.path v st
         (mst.logEv (.force cl.path)) rS stS hn hS hne hkf
       generalize mComplete c alt0 F true cl.t cl.rt cl.fid cl.fp cl.path v (mst.logEv (.force cl.path)) = z at hc ⊢
       obtain ⟨rM, mst1⟩ := z
